@@ -3,7 +3,7 @@ package go9p
 // C18 — Ufs confines clients to the exported root (H18.confine).
 //
 // Root = /r. The client-supplied strings — attach name, walk elements (1 or 2), create name, wstat rename target —
-// are symbolic strings of length 0..L over the alphabet {'.', '/', 'a'} (alphabet=4: plus 'b'); the fid used starts at depth 0, 1 or 2
+// are symbolic strings of length 0..L over the alphabet {'.', '/', 'a'} (alphabet=4: plus 'b'; alphabet=5: {'.', '/', 'r'}); the fid used starts at depth 0, 1 or 2
 // (or at the unclean spelling "/r/a/.." of the root). Every call that reaches the model FS with a path must name a
 // path that an independent lexical resolver (below; "", "." and ".." resolved element by element, no symlinks by
 // hypothesis) places inside /r (calls that only query — lstat/stat/readlink — are, unless strict is set, judged by
@@ -60,7 +60,10 @@ func vxSymAlpha(name string, maxLen int) string {
 	n := vxChoose(name+".len", maxLen+1)
 	s := vxString(name, n)
 	for i := 0; i < n; i++ {
-		if vxAlphabet >= 4 {
+		if vxAlphabet == 5 {
+			// names built from the root's own name: siblings such as /rr start with the root's path
+			vxAssume(vxAny(s[i] == '.', s[i] == '/', s[i] == 'r'))
+		} else if vxAlphabet >= 4 {
 			vxAssume(vxAny(s[i] == '.', s[i] == '/', s[i] == 'a', s[i] == 'b'))
 		} else {
 			vxAssume(vxAny(s[i] == '.', s[i] == '/', s[i] == 'a'))
@@ -87,6 +90,11 @@ func vxH18Confine(dotu bool, op int, L int, alphabet int, strict bool) {
 	fs.addFile(ca, "a", 0644, nil)
 	fs.addFile(fs.root, "aa", 0644, nil)
 	fs.addDir(fs.root, "b", 0755)
+	// siblings whose names start with the root's own name, and an object of that name inside
+	cr := fs.addDir(fs.root, "rr", 0755)
+	fs.addFile(cr, "r", 0644, nil)
+	fs.addFile(fs.root, "r.", 0644, nil)
+	fs.addFile(root, "r", 0644, nil)
 	outside := vxOutsideView(fs)
 
 	opname := vxH18Ops[op]
